@@ -128,8 +128,46 @@ func (es *ExpressionStatement) WriteTo(cw *CodeWriter) {
 	if es.Expression == nil {
 		return
 	}
+	// A statement that begins with '{' or 'function' is read as a block or a
+	// function declaration: such an expression statement needs parentheses
+	// (trees from the parser already carry them as a GroupedExpression)
+	needsParens := startsWithBraceOrFunction(es.Expression)
+	if needsParens {
+		// same layout as a GroupedExpression, so that the output is stable
+		cw.WriteRune('(')
+		cw.IncreaseIndent()
+	}
 	es.Expression.WriteTo(cw)
+	if needsParens {
+		cw.DecreaseIndent()
+		cw.WriteRune(')')
+	}
 	cw.WriteSemi()
+}
+
+// startsWithBraceOrFunction reports whether the first token written for the
+// expression is '{' or 'function' (following the leftmost operand).
+func startsWithBraceOrFunction(e Expression) bool {
+	for {
+		switch v := e.(type) {
+		case *ObjectLiteral, *FunctionExpression:
+			return true
+		case *BinaryExpression:
+			e = v.Left
+		case *PostfixExpression:
+			e = v.Left
+		case *CallExpression:
+			e = v.Function
+		case *MemberExpression:
+			e = v.Object
+		case *AssignmentExpression:
+			e = v.Left
+		case *CompoundAssignmentExpression:
+			e = v.Left
+		default:
+			return false
+		}
+	}
 }
 
 type FunctionDeclaration struct {
